@@ -73,6 +73,7 @@ waiters first, then Run. While the Run gate holds, Run does not pass its `nCheck
 def autoActions (v : Variant) (c : Ctl) (s : State) : List Action :=
   let en := (enabledActions v s).filter fun
     | .wRecv i => !c.parked.contains i
+    | .wFire i => !c.parked.contains i
     | .nCheck => !(c.armed || c.runParked)
     | .recv | .nRLock | .nSend _ | .nDrain _ | .nPut | .nDone | .wSub _ | .wUnsub _ | .sSend _ => true
     | _ => false
@@ -213,7 +214,11 @@ def scenStep (v : Variant) (s : State) (k : Nat) (shorts : List Nat) (c : Ctl) (
     let i := i.toNat?.getD 0
     if (cmd == "c" ∨ (cmd == "x" ∧ i ∈ shorts ∧ !c.runParked)) ∧ !c.parked.contains i then
       match s.waiters[i]? with
-      | some w => if w.pc == .sel then (apply? v s [.wFire i]).map (fin c) else some (s, c)
+      | some w =>
+        if w.pc == .sel then
+          -- c: the context is cancelled; x: the timeout elapses, the select then takes the timer case on its own
+          (apply? v s [if cmd == "c" then .wCancel i else .wDeadline i]).map (fin c)
+        else some (s, c)
       | none => some (s, c)
     else if cmd == "x" ∨ cmd == "c" then some (s, c) else none
   | _ => none
@@ -247,7 +252,7 @@ def runScen (v : Variant) (sc : Scen) : String :=
       let s := settle v c 10000 s
       let fin := order.foldl (fun (o : Option State) i => o.bind fun s =>
         match s.waiters[i]? with
-        | some w => if w.pc == .sel then (apply? v s [.wFire i]).map (settle v c 10000) else some s
+        | some w => if w.pc == .sel then (apply? v s [.wCancel i]).map (settle v c 10000) else some s
         | none => some s) (some s)
       match fin with
       | some s' => if atRest s' then "ok " ++ "|".intercalate ((obsOf c s' :: acc).reverse) else "hang"
@@ -257,8 +262,13 @@ open Tongo.PoolSM in
 /-- `selectmv.run`: members `alive:seqno:rtt`, moves `m<k>:<conn>:<seqno>` = SetMasterHead(conn, seqno) just before
 the k-th MasterHead() call of the refresh. -/
 def selectMoving (v : Variant) (st : Strategy) (prev : Int) (args : List String) : String :=
-  let mem := args.filter (fun x => !x.startsWith "m")
+  let mem := args.filter (fun x => !x.startsWith "m" && !x.startsWith "r")
   let moves := (args.filter (fun x => x.startsWith "m")).map fun x => ((x.drop 1).toString.splitOn ":").map (·.toNat?.getD 0)
+  -- r<i>:<conn>:<rtt>: the round-trip time of <conn> changes just before the refresh reads member i
+  let rmoves := (args.filter (fun x => x.startsWith "r")).map fun x => ((x.drop 1).toString.splitOn ":").map (·.toNat?.getD 0)
+  let rtts (k : Nat) (s : State) : State :=
+    (rmoves.filter (fun m => m.getD 0 0 == k)).foldl (fun (s : State) m =>
+      (step v s (.setRtt (m.getD 1 0) (Int.ofNat (m.getD 2 0)))).getD s) s
   match connsOfText mem with
   | none => "bad-op"
   | some cs =>
@@ -274,7 +284,8 @@ def selectMoving (v : Variant) (st : Strategy) (prev : Int) (args : List String)
         | some s1 => (step v s1 (.sSend j)).getD s1
         | none => s) s
       runTrace v s [a]
-    let pass1 := (List.range n).foldl (fun (o : Option State) k => o.bind (readStep k .ubRead)) (runTrace v s0 [.tick, .ubLock])
+    let pass1 := (List.range n).foldl (fun (o : Option State) k => o.bind fun s => readStep k .ubRead (rtts k s))
+      (runTrace v s0 [.tick, .ubLock])
     let pass1 := pass1.bind fun s => runTrace v s [.ubRead]
     let pass2 := (List.range n).foldl (fun (o : Option State) k => o.bind fun s =>
       if v.oneSnapshot then runTrace v s [.ubSel] else readStep (n + k) .ubSel s) pass1
@@ -320,7 +331,7 @@ def opsC13 : List (String × Handler) := [
     | _ => "bad-op"),
   ("selectmvorig.run", fun
     | st :: prev :: rest => match prev.toInt? with
-      | some p => selectMoving ⟨true, true, false, true⟩ (stratOf st) p rest
+      | some p => selectMoving ⟨true, true, false, true, true⟩ (stratOf st) p rest
       | none => "bad-op"
     | _ => "bad-op"),
   ("wait.script", fun a => match scenOf a with
